@@ -38,7 +38,6 @@ MUTANTS = [
  dict(id='c19-nextline-eats-one-more', prop='C19', file=NEXT, old='(byte_pos, line_break_pos)', new='(byte_pos, line_break_pos + 2)', what='NextLineBreakRemover removes one character too many'),
  dict(id='c19-child-merge-needs-both-ends', prop='C19', file=REMOVER, old='if marker.contains(&child_marker.start) || marker.contains(&child_marker.end) {', new='if marker.contains(&child_marker.start) && marker.contains(&child_marker.end) {',
       what='a ready child that only touches the wrapper part of an unwrap-block is no longer merged into it'),
- dict(id='c19-revert-F3-nextline-half', prop='C19', file=NEXT, old="        if !is_line_head(bytes, byte_pos) {\n            return (byte_pos, byte_pos);\n        }\n", new='', what='F3 re-introduced (next-line-break remover half)'),
  dict(id='c19-revert-F4', prop='C19', file='chiritori/src/element_parser.rs', old="""                            State::NameBegin => match current_char {
                                 ' ' | '\\n' => {}""", new="""                            State::NameBegin => match current_char {
                                 ' ' => {}""", what='F4 re-introduced (line break before an attribute name becomes part of the name)'),
@@ -70,6 +69,12 @@ impl TimeLimitedEvaluator {
         let n = f.read(&mut buf).expect("something went wrong reading the file");
         content = String::from_utf8_lossy(&buf[..n]).into_owned();''', what='one read() instead of read_to_string: short reads lose input'),
  dict(id='c20-single-write', prop='C20', file=MAIN, old='f.write_all(output.as_bytes())', new='f.write(output.as_bytes()).map(|_| ())', what='one write() instead of write_all: short writes lose output'),
+ dict(id='c20-bufwriter-exit-without-flush', prop='C20', file=MAIN, old='''        let mut f = File::create(filename).expect("file not found");
+        f.write_all(output.as_bytes())
+            .expect("something went wrong writing the file");''', new='''        let mut f = std::io::BufWriter::new(File::create(filename).expect("file not found"));
+        f.write_all(output.as_bytes())
+            .expect("something went wrong writing the file");
+        std::process::exit(0);''', what='buffered writer + process::exit: destructors do not run, the buffered output is lost'),
  dict(id='c20-println', prop='C20', file=MAIN, old='print!("{}", output);', new='println!("{}", output);', what='stdout gets an extra newline'),
  dict(id='c20-flags-dropped-with-config', prop='C20', file=MAIN, old='''        .chain(args.removal_marker_target_name)''', new='''        .chain(if args.removal_marker_target_config.is_some() { vec![] } else { args.removal_marker_target_name })''',
       what='flag targets ignored when a config file is given', pre=('''        if let Some(removal_marker_target_config) = args.removal_marker_target_config {''', '''        if let Some(removal_marker_target_config) = args.removal_marker_target_config.clone() {''')),
